@@ -211,6 +211,7 @@ func kqHistory(rng *rand.Rand, o kqOpts) (rep kqReport) {
 	}
 	linkTargetGone := false // the file watched through the symlink lf has been deleted/renamed
 	ld1Gone := false        // the directory watched through the symlink ld1 has been removed
+	k2Done := false         // Remove(target of ld1) was accepted (finding K2); what follows is its consequence
 	var want []string
 	evName := func(p string) (string, bool) { // event name for real path p inside a watched dir
 		pre, ok := watched[filepath.Dir(p)]
@@ -595,7 +596,18 @@ func kqHistory(rng *rand.Rand, o kqOpts) (rep kqReport) {
 				continue // burst histories keep the watch set fixed: the reader only races the driver's filesystem operations
 			}
 			wd := dirs[rng.Intn(2)]
-			if pre, ok := watched[wd]; ok {
+			if pre, ok := watched[wd]; ok && pre == ld1 && rng.Intn(3) == 0 && !k2Done {
+				// K2 probe: Remove of the TARGET of a directory that was added through a symlink.
+				// WatchList shows only the link, so this path is not listed: the call has to fail
+				// with ErrNonExistentWatch and change nothing.
+				err := w.Remove(wd)
+				rep.Removes++
+				desc = fmt.Sprintf("Remove(%q)=%v", strings.TrimPrefix(wd, tmp), err)
+				if !errors.Is(err, fsnotify.ErrNonExistentWatch) {
+					k2Done = true
+					report("K2-remove-target-of-symlinked-dir-watch", fmt.Sprintf("Remove(%q) — the target of the listed symlink %q, itself not listed — returned %v instead of ErrNonExistentWatch", wd, pre, err))
+				}
+			} else if pre, ok := watched[wd]; ok {
 				sp := pre
 				if rng.Intn(4) == 0 {
 					sp += "/"
